@@ -200,6 +200,10 @@ namespace sim
 				, static_cast<unsigned short>(port));
 			if (err)
 			{
+				// a lookup for an earlier (pipelined) request is in progress, this
+				// request is sent once the connection it leads to is up
+				if (m_resolving) return;
+				m_resolving = true;
 				char port_str[10];
 				std::snprintf(port_str, sizeof(port_str), "%d", port);
 				m_resolver.async_resolve(host, port_str
@@ -219,6 +223,7 @@ namespace sim
 	void http_proxy::on_domain_lookup(boost::system::error_code const& ec
 		, const asio::ip::tcp::resolver::results_type ips)
 	{
+		m_resolving = false;
 		if (ec || ips.empty())
 		{
 			if (ec)
@@ -345,6 +350,7 @@ namespace sim
 		m_num_client_in_bytes = 0;
 		m_num_server_out_bytes = 0;
 		m_num_in_bytes = 0;
+		m_resolving = false;
 
 		error_code err;
 		m_client_connection.close(err);
